@@ -207,6 +207,30 @@ def key_expr_role(roles: Dict[str, Dict[int, str]], e: ast.AST) -> Optional[Tupl
     return None
 
 
+def origin_table(repo, name: str, module: str = "_typehints", _depth: int = 0) -> Set[str]:
+    """Contents of a module-level table of type origins (`X = {List, list, ...}` / `X = A.union(B)`), as dotted names."""
+    m = repo.modules.get(module)
+    if m is None:
+        raise AnalysisError(f"anchor vanished: module {module}")
+    for s in m.tree.body:
+        if isinstance(s, ast.Assign) and len(s.targets) == 1 and isinstance(s.targets[0], ast.Name) and s.targets[0].id == name:
+            v = s.value
+            if isinstance(v, ast.Set):
+                out = {dotted(e) for e in v.elts}
+                if None in out:
+                    raise AnalysisError(f"table {name}: element that is not a dotted name")
+                return out  # type: ignore[return-value]
+            if isinstance(v, ast.Call) and call_leaf(v) == "union" and isinstance(v.func, ast.Attribute) and isinstance(v.func.value, ast.Name) and _depth < 3:
+                out = set(origin_table(repo, v.func.value.id, module, _depth + 1))
+                for a in v.args:
+                    if not isinstance(a, ast.Name):
+                        raise AnalysisError(f"table {name}: union with a non-name")
+                    out |= origin_table(repo, a.id, module, _depth + 1)
+                return out
+            raise AnalysisError(f"table {name}: unexpected definition {src(v)}")
+    raise AnalysisError(f"anchor vanished: table {name} in {module}")
+
+
 def contextvar_table(repo) -> Dict[str, Tuple[str, Optional[ast.AST]]]:
     """name -> (module, default expr) for every module-level ContextVar(...) declaration."""
     out: Dict[str, Tuple[str, Optional[ast.AST]]] = {}
